@@ -49,6 +49,8 @@ impl ValidatorAsync for CheckLuaValidator {
         &self,
         context: Arc<ValidationContext>,
     ) -> anyhow::Result<HashMap<PathBuf, Vec<Violation>>> {
+        #[cfg(feature = "verif")]
+        use crate::verif_hooks::JoinSet;
         let mut violations = HashMap::new();
         let mut tasks = JoinSet::new();
         for (file_path, file_blocks) in &context.blocks {
